@@ -592,6 +592,7 @@ def compile (fuel : Nat) : St α → List (List Char) → Outcome α
   | s, [] => .done s
   | s, raw :: rest =>
     let (n, body) := splitLineNumber raw
+    if lineNumberTooLarge raw then .err .lineTooLarge s else
     match lexLine (α := α) body with
     | .error e => .err (.lex e) s
     | .ok toks =>
